@@ -10,6 +10,7 @@ import (
 	"fmt"
 	"io"
 	"log"
+	"reflect"
 	"runtime"
 	"strconv"
 	"strings"
@@ -24,6 +25,7 @@ import (
 
 	"github.com/dfklegend/cell2/utils/logger"
 	"github.com/dfklegend/cell2/utils/runservice"
+	"github.com/dfklegend/cell2/utils/sche"
 	"github.com/dfklegend/cell2/utils/timer"
 )
 
@@ -64,11 +66,42 @@ type world struct {
 	curOp   string
 	cbInOp  int
 	gate    chan struct{} // the owner loop is parked on it while `blocked`
+	unit    time.Duration // what one tick of the op language means (ms, or µs for sub-millisecond cases)
+	twin    string        // "", "same", "empty": a second run service created with the same name
+	srvB    *runservice.StandardRunService
+	chA     chan func() // own selector of the run service(s): runs a closure on exactly that loop
+	chB     chan func()
+	ownerB  int
 	blocked bool
 	dead    bool // the run service was stopped (rstop)
 }
 
-func (w *world) now() int { return int(time.Since(w.base) / time.Millisecond) }
+func (w *world) now() int { return int(time.Since(w.base) / w.unit) }
+
+func (w *world) dur(d int) time.Duration { return time.Duration(d) * w.unit }
+
+// ownChan registers a selector of our own on a run service: whatever is sent to the channel
+// runs on that service's loop goroutine and on no other (the scheduler cannot promise that:
+// run services created with the same name share one task channel).
+func ownChan(srv *runservice.StandardRunService) chan func() {
+	ch := make(chan func(), 64)
+	srv.GetSelector().AddSelector("c14probe", sche.NewFuncSelector(reflect.ValueOf(ch),
+		func(v reflect.Value, recvOk bool) {
+			if recvOk {
+				v.Interface().(func())()
+			}
+		}))
+	return ch
+}
+
+// post runs f on the owner loop of the timers under test.
+func (w *world) post(f func()) {
+	if w.twin != "" {
+		w.chA <- f
+	} else {
+		w.srv.GetScheduler().Post(f)
+	}
+}
 
 func (w *world) addLog(s string) {
 	w.mu.Lock()
@@ -208,9 +241,9 @@ func (w *world) create(rep bool, dur, k int, args []int) timer.IdType {
 		}
 	}
 	if rep {
-		self = mgr.AddTimer(ms(dur), cb, ifaces(args)...)
+		self = mgr.AddTimer(w.dur(dur), cb, ifaces(args)...)
 	} else {
-		self = mgr.After(ms(dur), cb, ifaces(args)...)
+		self = mgr.After(w.dur(dur), cb, ifaces(args)...)
 	}
 	w.newest = self
 	return self
@@ -281,6 +314,12 @@ func (w *world) shutdown() {
 		}
 		w.srv = nil
 	}
+	if w.srvB != nil {
+		// with a shared scheduler the second Stop closes its task channel again: panics after the loop was told to end
+		b := w.srvB
+		hx.Guard(func() string { b.Stop(); return "" })
+		w.srvB = nil
+	}
 	w.dead = false
 	for i := 0; i < 100; i++ {
 		synctest.Wait()
@@ -305,7 +344,7 @@ func (w *world) shutdown() {
 // (posted through its scheduler) or the harness goroutine itself.
 func (w *world) onOwner(f func()) {
 	if w.rs {
-		w.srv.GetScheduler().Post(f)
+		w.post(f)
 	} else {
 		f()
 	}
@@ -349,16 +388,51 @@ func (w *world) exec(op string) string {
 		w.nCase++
 		w.rs = hx.KVInt(ws, "rs") == 1
 		w.scripts = map[int][]act{}
-		w.base = time.Now()
 		w.newest = 0
+		w.unit = time.Millisecond
+		if u, _ := hx.KV(ws, "unit"); u == "us" {
+			w.unit = time.Microsecond
+		}
+		w.twin, _ = hx.KV(ws, "twin")
+		if w.twin != "same" && w.twin != "empty" || !w.rs {
+			w.twin = ""
+		}
 		if w.rs {
-			w.srv = runservice.NewStandardRunService(fmt.Sprintf("c14-%d", w.nCase))
+			name := fmt.Sprintf("c14-%d", w.nCase)
+			if w.twin == "empty" {
+				name = ""
+			}
+			w.srv = runservice.NewStandardRunService(name)
 			w.srv.Start()
 			w.mgr = w.srv.GetTimerMgr()
 			w.owner = -2
-			w.srv.GetScheduler().Post(func() { w.owner = goid() })
+			w.chA = ownChan(w.srv)
+			w.chA <- func() { w.owner = goid() }
+			if w.twin != "" {
+				// a second run service created with the same name, busy with a timer of its own
+				w.srvB = runservice.NewStandardRunService(name)
+				w.srvB.Start()
+				w.chB = ownChan(w.srvB)
+				b := w.srvB
+				w.chB <- func() {
+					w.ownerB = goid()
+					per := w.unit
+					if per < time.Millisecond {
+						per = 250 * time.Microsecond
+					}
+					b.GetTimerMgr().AddTimer(per, func(...interface{}) {
+						if goid() != w.ownerB {
+							w.mu.Lock()
+							w.offLoop = true
+							w.mu.Unlock()
+						}
+					})
+				}
+			}
 			synctest.Wait()
+			w.base = time.Now()
 		} else {
+			w.base = time.Now()
 			w.mgr = timer.NewTimerMgr()
 			w.owner = goid()
 		}
@@ -380,7 +454,7 @@ func (w *world) exec(op string) string {
 		}
 		w.gate = make(chan struct{})
 		g := w.gate
-		w.srv.GetScheduler().Post(func() { <-g })
+		w.post(func() { <-g })
 		synctest.Wait()
 		w.blocked = true
 		return w.suffix("")
@@ -401,7 +475,7 @@ func (w *world) exec(op string) string {
 		if by == "foreign" {
 			r = hx.Guard(func() string { w.srv.Stop(); return "" })
 		} else {
-			w.srv.GetScheduler().Post(func() { w.srv.Stop() })
+			w.post(func() { w.srv.Stop() })
 		}
 		synctest.Wait()
 		w.dead = true
@@ -443,7 +517,7 @@ func (w *world) exec(op string) string {
 		if !ok {
 			return "bad-op"
 		}
-		time.Sleep(ms(d))
+		time.Sleep(w.dur(d))
 		synctest.Wait()
 		return fmt.Sprintf("now=%d ", w.now()) + w.suffix(fmt.Sprintf("q=%d", w.qlen()))
 	case "do":
@@ -478,11 +552,69 @@ type gen struct {
 	h       *hx.T
 	run     func(string)
 	created int // top-level timers created in the current case
+	us      bool // the current case counts in µs
 }
 
 var durs = []int{-1, 0, 0, 1, 1, 2, 2, 3, 3, 5, 8}
 
-func (g *gen) dur() int { return durs[g.h.R.Intn(len(durs))] }
+// µs cases: durations below one millisecond next to 0 and >= 1 ms
+var dursUs = []int{-1, 0, 0, 1, 500, 900, 999, 1000, 1001, 1500, 2000, 3000}
+
+func (g *gen) dur() int {
+	if g.us {
+		g.h.Count("dur.sub-ms-case")
+		return dursUs[g.h.R.Intn(len(dursUs))]
+	}
+	return durs[g.h.R.Intn(len(durs))]
+}
+
+// durRep: duration of a repeating timer (no 1 µs periods: thousands of firings per step)
+func (g *gen) durRep() int {
+	if g.us {
+		return g.h.Pick(-1, 0, 500, 900, 999, 1000, 1500, 2000)
+	}
+	return g.dur()
+}
+
+// scnDur: the duration a structured scenario is built around
+func (g *gen) scnDur() int {
+	if g.us {
+		return g.h.Pick(500, 900, 999, 1000, 1500)
+	}
+	return 1 + g.h.R.Intn(6)
+}
+
+func (g *gen) advPick(rsSmall bool) int {
+	if g.us {
+		return g.h.Pick(0, 1, 100, 499, 500, 899, 900, 998, 999, 1000, 1500, 2500)
+	}
+	if rsSmall {
+		return g.h.Pick(1, 2, 3)
+	}
+	return g.h.Pick(0, 1, 1, 2, 3, 4, 5, 8, 13)
+}
+
+// reset starts a case: unit ms or µs; run-service cases sometimes get a twin service of the same name
+func (g *gen) reset(rs bool) {
+	g.created = 0
+	g.us = g.h.R.Intn(4) == 0
+	op := fmt.Sprintf("reset rs=%d", hx.B2i(rs))
+	if g.us {
+		op += " unit=us"
+		g.h.Count("case.unit-us")
+	}
+	if rs {
+		switch g.h.R.Intn(6) {
+		case 0, 1:
+			op += " twin=same"
+			g.h.Count("case.rs-twin-same-name")
+		case 2:
+			op += " twin=empty"
+			g.h.Count("case.rs-twin-empty-name")
+		}
+	}
+	g.run(op)
+}
 
 func (g *gen) someId() int {
 	r := g.h.R
@@ -518,7 +650,7 @@ func (g *gen) scripts() {
 		for i := 0; i < n; i++ {
 			if k >= 3 && r.Intn(2) == 0 {
 				if r.Intn(3) == 0 {
-					as = append(as, fmt.Sprintf("t:%d:%d:%d", g.dur(), r.Intn(3), r.Intn(100)))
+					as = append(as, fmt.Sprintf("t:%d:%d:%d", g.durRep(), r.Intn(3), r.Intn(100)))
 					g.h.Count("act.addtimer")
 				} else {
 					as = append(as, fmt.Sprintf("a:%d:%d:%d", g.dur(), r.Intn(k), r.Intn(100)))
@@ -566,20 +698,20 @@ func (g *gen) randomOps(rs bool, n int) {
 		case x < 14:
 			g.mk("after", g.dur(), r.Intn(7))
 		case x < 28:
-			g.mk("add", g.dur(), r.Intn(7))
+			g.mk("add", g.durRep(), r.Intn(7))
 		case x < 43:
 			g.h.Count("op.cancel")
 			g.run(fmt.Sprintf("cancel id=%d", g.someId()))
 		case x < 63:
 			g.h.Count("op.adv")
-			g.run(fmt.Sprintf("adv d=%d", g.h.Pick(0, 1, 1, 2, 3, 4, 5, 8, 13)))
+			g.run(fmt.Sprintf("adv d=%d", g.advPick(false)))
 		case x < 64 && r.Intn(4) == 0:
 			g.h.Count("op.stop")
 			g.run("stop")
 		default:
 			if rs {
 				g.h.Count("op.adv")
-				g.run(fmt.Sprintf("adv d=%d", g.h.Pick(1, 2, 3)))
+				g.run(fmt.Sprintf("adv d=%d", g.advPick(true)))
 			} else {
 				g.h.Count("op.do")
 				g.run("do")
@@ -589,12 +721,11 @@ func (g *gen) randomOps(rs bool, n int) {
 }
 
 func (g *gen) caseRandom(rs bool) {
-	g.created = 0
-	g.run(fmt.Sprintf("reset rs=%d", hx.B2i(rs)))
+	g.reset(rs)
 	g.scripts()
 	g.randomOps(rs, 8+g.h.R.Intn(30))
 	// quiesce: let everything that is due fire and drain it
-	g.run(fmt.Sprintf("adv d=%d", g.h.Pick(0, 3, 9)))
+	g.run(fmt.Sprintf("adv d=%d", g.advPick(false)))
 	if !rs {
 		g.drain(3 + g.h.R.Intn(10))
 	}
@@ -603,9 +734,8 @@ func (g *gen) caseRandom(rs bool) {
 // structured scenarios around the moments the property names
 func (g *gen) caseScenario() {
 	r := g.h.R
-	g.created = 0
-	g.run("reset rs=0")
-	d := 1 + r.Intn(6)
+	g.reset(false)
+	d := g.scnDur()
 	kind := []string{"after", "add"}[r.Intn(2)]
 	sc := r.Intn(10)
 	g.h.Count(fmt.Sprintf("scenario.%d", sc))
@@ -697,8 +827,8 @@ func (g *gen) caseScenario() {
 // owner loop is stuck — every single one must get its callback (and repeating ones go on)
 func (g *gen) caseRsBacklog(n int, blocked bool) {
 	r := g.h.R
-	g.created = 0
-	g.run("reset rs=1")
+	g.reset(true)
+	g.us = false
 	g.h.Count("scenario.rs-backlog")
 	d := 1 + r.Intn(3)
 	for i := 0; i < n; i++ {
@@ -752,8 +882,8 @@ func (g *gen) staleCancels(rs bool, d int) {
 // goroutine while the loop is still stuck, or after it resumed; or by the owner itself)
 func (g *gen) caseBusyStop() {
 	r := g.h.R
-	g.created = 0
-	g.run("reset rs=1")
+	g.reset(true)
+	g.us = false // durations below are written in plain ticks
 	g.scripts()
 	n := 1 + r.Intn(5)
 	for i := 0; i < n; i++ {
@@ -880,9 +1010,8 @@ func TestRun(t *testing.T) {
 					g.caseRsBacklog(30+h.R.Intn(50), h.R.Intn(2) == 0)
 				case x < 5 && h.R.Intn(3) == 0:
 					h.Count("case.rs-stale-cancels")
-					g.created = 0
-					g.run("reset rs=1")
-					g.staleCancels(true, 1+h.R.Intn(5))
+					g.reset(true)
+					g.staleCancels(true, g.scnDur())
 				case x < 5:
 					h.Count("case.rs-busy-stop")
 					g.caseBusyStop()
